@@ -3,14 +3,16 @@
    the class [diffeo] is closed under composition and inverse; Affine / Loc / Scale / LeakyTanh layers and every
    Invert / Chain of them are such maps and report ln|derivative| as their log-det; hence exp(log_prob) of
    Transformed(base, b) integrates to one for every such expression b (any depth) and a base with a CDF.
-   Tanh is not such a map.  NOT proved (named in Proofs/IntP.v): d >= 2 change of variables, the spline's closure
-   lemma, everything statistical about the sampler.  Those parts are covered by the deterministic quadrature and
+   Tanh is not such a map.  The piecewise (Chasles) form covers maps with kinks: the rational-quadratic spline is in the
+   class, so every Chain / Invert nesting of Affine / LeakyTanh / spline layers is covered in both orientations.
+   NOT proved (named in Proofs/IntP.v): d >= 2 change of variables, existence of the normal CDF (hypothesis; proved for
+   the Gumbel base), everything statistical about the sampler.  Those parts are covered by the deterministic quadrature and
    the fixed-seed Kolmogorov-Smirnov oracle of harness/c04.py only.
    Model: Model/Dist.v.  Lemmas: Proofs/IntP.v (on C01/C02/C03 lemmas). *)
 From Coq Require Import Reals List ZArith Bool.
 From Coquelicot Require Import Coquelicot.
 From FJ Require Proofs.LeafInvP Proofs.RqsInvP.
-From FJ Require Import Model.Num Model.Leaves Model.Dist Proofs.RNum Proofs.LeafDerivP Proofs.DistP Proofs.IntP.
+From FJ Require Import Model.Num Model.Leaves Model.Dist Proofs.RNum Proofs.LeafDerivP Proofs.RqsDerivP Proofs.DistP Proofs.IntP Proofs.IntSplineP.
 Import ListNotations.
 Open Scope R_scope.
 
@@ -92,6 +94,57 @@ Theorem C04_spline_onto_identity_tails_partial : forall (xp yp dv : list R) (lo 
 Proof. exact rqs_onto_identity_tails. Qed.
 Print Assumptions C04_spline_onto_identity_tails_partial.
 
+(* ---------------- the piecewise (Chasles) form and the rational-quadratic spline (Proofs/IntSplineP.v) ---------------- *)
+(* [pdiffeo f g f' up]: f is a bijection of R onto R (inverse g) glued from finitely many global C1 diffeos at break points
+   where consecutive pieces agree; kinks allowed; f' is the piecewise derivative, its value at a break point only has to
+   have the right sign.  For every such map the pushed-forward density integrates to one: *)
+Theorem C04_piecewise_density_integrates : forall (P p : R -> R),
+  (forall z, is_derive P z (p z)) -> (forall z, continuous p z) ->
+  filterlim P (Rbar_locally m_infty) (locally 0) -> filterlim P (Rbar_locally p_infty) (locally 1) ->
+  forall (f g f' : R -> R) (up : bool), pdiffeo f g f' up ->
+  is_RInt_gen (fun x => p (f x) * Rabs (f' x)) (Rbar_locally m_infty) (Rbar_locally p_infty) 1.
+Proof. exact pdiffeo_density_integrates. Qed.
+Print Assumptions C04_piecewise_density_integrates.
+(* ... over every finite interval too (the Chasles induction) *)
+Theorem C04_piecewise_interval : forall (P p : R -> R),
+  (forall z, is_derive P z (p z)) -> (forall z, continuous p z) ->
+  forall (f g f' : R -> R) (up : bool), pdiffeo f g f' up -> forall u v,
+  is_RInt (fun x => p (f x) * f' x) u v (P (f v) - P (f u)).
+Proof. exact pd_int. Qed.
+Print Assumptions C04_piecewise_interval.
+(* the class is closed under inverse (break points = images of the break points) and composition *)
+Theorem C04_pdiffeo_inverse : forall (f g f' : R -> R) (up : bool),
+  pdiffeo f g f' up -> pdiffeo g f (fun y => / f' (g y)) up.
+Proof. exact pd_inverse. Qed.
+Print Assumptions C04_pdiffeo_inverse.
+Theorem C04_pdiffeo_comp : forall (f gf f' : R -> R) (u : bool) (h gh h' : R -> R) (v : bool),
+  pdiffeo f gf f' u -> pdiffeo h gh h' v ->
+  pdiffeo (fun x => h (f x)) (fun z => gf (gh z)) (fun x => h' (f x) * f' x) (Bool.eqb u v).
+Proof. exact pd_comp. Qed.
+Print Assumptions C04_pdiffeo_comp.
+(* the spline as coded, under rqs_valid, with what derivative() reports as piecewise derivative and the coded inverse *)
+Theorem C04_spline_piecewise_diffeo : forall (xp yp dv : list R) (lo hi : R), rqs_valid xp yp dv lo hi ->
+  pdiffeo (rqs_fwd ROps xp yp dv lo hi) (rqs_inv ROps xp yp dv lo hi) (rqs_deriv ROps xp yp dv lo hi) true.
+Proof. exact rqs_pdiffeo. Qed.
+Print Assumptions C04_spline_piecewise_diffeo.
+(* every 1-D expression over Affine / Loc / Scale / LeakyTanh / RationalQuadraticSpline, any Chain / Invert nesting *)
+Theorem C04_expression_onto_spline : forall b : bexpr R, onto1s b -> psflow (slayer b).
+Proof. exact psflow_expr. Qed.
+Print Assumptions C04_expression_onto_spline.
+(* THE 1-D statement with splines, both orientations; the base CDF is a hypothesis (StandardNormal) ... *)
+Theorem C04_flow_1d_spline_integrates_to_one : forall (f : fam) (P : R -> R) (b : bexpr R),
+  (forall z, is_derive P z (exp (fam_logpdf ROps f z))) ->
+  filterlim P (Rbar_locally m_infty) (locally 0) -> filterlim P (Rbar_locally p_infty) (locally 1) ->
+  onto1s b ->
+  is_RInt_gen (fun x => exp (logp ROps (DTrans (DBase f) b) [x])) (Rbar_locally m_infty) (Rbar_locally p_infty) 1.
+Proof. exact flow_1d_spline_integrates_to_one. Qed.
+Print Assumptions C04_flow_1d_spline_integrates_to_one.
+(* ... or proved (standard Gumbel) *)
+Theorem C04_gumbel_flow_1d_spline_integrates_to_one : forall b : bexpr R, onto1s b ->
+  is_RInt_gen (fun x => exp (logp ROps (DTrans (DBase FGumbel) b) [x])) (Rbar_locally m_infty) (Rbar_locally p_infty) 1.
+Proof. exact gumbel_flow_1d_spline_integrates_to_one. Qed.
+Print Assumptions C04_gumbel_flow_1d_spline_integrates_to_one.
+
 (* why a plain Tanh activation breaks the property: Tanh is not onto R *)
 Theorem C04_tanh_not_onto : ~ exists x, tanh_fwd ROps x = 1.
 Proof. exact tanh_not_onto. Qed.
@@ -103,6 +156,9 @@ Print Assumptions C04_tanh_not_diffeo.
 (* non-vacuity: a chain with a negative scale, a LeakyTanh and an inverted chain meets [onto1] *)
 Example C04_example_onto : onto1 ex_onto.
 Proof. exact ex_onto_ok. Qed.
+(* ... and with splines that have a kink at both interval ends (end derivatives 3 and 2), one of them inverted *)
+Example C04_example_onto_spline : onto1s ex_onto_s.
+Proof. exact ex_onto_s_ok. Qed.
 Example C04_example_term : ex_onto =
   BChain [BElem [LAffine 1 (-2)]; BElem [LLeaky 3 (leaky_grad ROps 3) (leaky_icpt ROps 3)];
           BInvert (BChain [BElem [LLeaky (/2) (leaky_grad ROps (/2)) (leaky_icpt ROps (/2))]; BElem [LScale 5]])].
